@@ -210,6 +210,7 @@ def field_shift(prog, cg, floor=150):
         if len(units) != 1 or not (units & {2, 4}):
             continue
         A, D, AN = {}, {}, {}
+        PLAIN = {}
         DELEG = set()
         rowcache = {}
 
@@ -228,7 +229,14 @@ def field_shift(prog, cg, floor=150):
                 vals = {c.get('v') for c in cns if 'v' in c}
                 blocks = _label_blocks(afn, ids, col, vals, rows_of(caselen._table(txt)), caselen._table(txt), body_ids)
                 k = (caselen._table(txt), name)
-                A.setdefault(k, {}).update(_asm_shifts(afn, _nodes_of_blocks(afn, blocks, body_ids)))
+                nodes_ = _nodes_of_blocks(afn, blocks, body_ids)
+                A.setdefault(k, {}).update(_asm_shifts(afn, nodes_))
+                for i_ in nodes_:
+                    x_ = afn.nodes.get(i_)
+                    if x_ is not None and x_['k'] == 'CompoundAssignOperator' and x_.get('op') == '|=':
+                        r_ = strip(kids(x_)[1], casts=True)
+                        if r_['k'] in ('MemberExpr', 'DeclRefExpr', 'ArraySubscriptExpr'):
+                            PLAIN.setdefault(k, set()).add(show(r_)[:40])
                 AN[k] = cns[0]
         for sw, txt in caselen._switches(dfn):
             col = txt.split('.')[-1]
@@ -249,6 +257,12 @@ def field_shift(prog, cg, floor=150):
             ncpu += 1
         for k in common:
             miss = {s: v for s, v in A[k].items() if s not in D[k]}
+            # the same operand inserted at several places (rd and rs of `clr Rd` = `xor Rd, Rd`): one read is enough
+            for s_ in list(miss):
+                v_ = miss[s_]
+                if any(v2 == v_ and s2 in D[k] for s2, v2 in A[k].items() if s2 != s_) or \
+                        (0 in D[k] and v_ in PLAIN.get(k, ())):
+                    del miss[s_]
             an = AN[k]
             if not A[k]:
                 continue
